@@ -390,7 +390,8 @@ def skeleton_logs(out, wd, side, tier):
     """S2: TLC prints every transition of the small session model; a transition-covering set of input paths is
     replayed on the real session (fresh ids re-bound to what the real session hands out)."""
     mod = "Gen_Server" if side == "server" else "Gen_Client"
-    cfg = os.path.join(vlib.SPEC, mod + (".cfg" if tier == "quick" else "_big.cfg"))
+    # quick: the server uses three request ids (connect + two requests on the same stream) on one message stream
+    cfg = os.path.join(vlib.SPEC, mod + ("_mid.cfg" if tier == "quick" else "_big.cfg"))
     if not os.path.exists(cfg):
         cfg = os.path.join(vlib.SPEC, mod + ".cfg")
     r = vlib.tlc(mod + ".tla", cfg, wd, workers=1, timeout=1200, xss="64m", xmx="8g")
